@@ -1,5 +1,6 @@
 import PhononModel.Model.Symmetrize
 import PhononModel.Model.Wire
+import PhononModel.Model.GroupAverage
 open PhononModel PhononModel.Wire
 
 /-- flat `[a][b][3][3]` array ↦ function -/
@@ -73,6 +74,29 @@ def handle (line : String) : String :=
       | "transposec" => pure (showRats (ofFC np ns (transposeC T Φc)))
       | "permsymc" => pure (showRats (ofFC np ns (permSymC T Φc)))
       | _ => pure (showRats (ofFC ns ns (expand T Φc)))
+    | "pj" | "pjwf" =>
+      -- N n  perm[N*n]  C[N*9]  Ci[N*9]  (pj: Φ[n*n*9] | pjwf: mul[N*N])
+      let (N, c) ← c.nat?
+      let (n, c) ← c.nat?
+      let (perm, c) ← c.nats? (N * n)
+      let (C, c) ← c.rats? (N * 9)
+      let (Ci, c) ← c.rats? (N * 9)
+      let perm ← allFin? n perm
+      let permF : Fin N → Fin n → Fin n := fun g x => (perm[g.1 * n + x.1]?).getD x
+      let CF : Fin N → Fin 3 → Fin 3 → Rat := fun g k l => C.getD (g.1 * 9 + k.1 * 3 + l.1) 0
+      let CiF : Fin N → Fin 3 → Fin 3 → Rat := fun g k l => Ci.getD (g.1 * 9 + k.1 * 3 + l.1) 0
+      if op == "pj" then
+        let (v, c) ← c.rats? (n * n * 9)
+        if !c.atEnd then none
+        pure (showRats (ofFC n n (pjAverage permF CF CiF (toFC n n v))))
+      else
+        let (mul, c) ← c.nats? (N * N)
+        if !c.atEnd then none
+        let mul ← allFin? N mul
+        if hN : 0 < N then
+          let mulF : Fin N → Fin N → Fin N := fun g h => (mul[g.1 * N + h.1]?).getD ⟨0, hN⟩
+          pure (toString (pjWf permF CF CiF mulF))
+        else none
     | _ => none
   r.getD "bad-op"
 
